@@ -53,7 +53,8 @@ theorem mem_dispStep {c : Cfg} {s s' : St} (h : s' ∈ dispStep c s) :
         s' = { s with lanes := s.lanes.set (s.write % c.n) { l with inq := some s.write }, write := s.write + 1 })
     ∨ (s.disp = D.running ∧ s.write < c.N ∧ s.gerr.isSome = true ∧ s' = { s with disp := D.closing })
     ∨ (s.disp = D.running ∧ ¬ s.write < c.N ∧ s' = { s with disp := D.closing })
-    ∨ (s.disp = D.closing ∧ s' = { s with disp := D.exited, inClosed := true }) := by
+    ∨ (s.disp = D.closing ∧
+        s' = { s with disp := D.exited, inClosed := true, gerr := (if s.gerr.isSome then s.gerr else (if c.srcFails then some c.N else none)) }) := by
   unfold dispStep at h
   split at h
   · next hd =>
@@ -234,7 +235,9 @@ structure Inv (c : Cfg) (s : St) : Prop where
   okout : ∀ k, k < s.read → c.fails k = false
   dispc : s.inClosed = true ↔ s.disp = D.exited
   dispF : s.disp ≠ D.running → s.gerr = none → s.write = c.N
-  gerrI : ∀ e, s.gerr = some e → c.fails e = true ∧ e < c.N
+  gerrI : ∀ e, s.gerr = some e → (c.fails e = true ∧ e < c.N) ∨ (c.srcFails = true ∧ e = c.N)
+  /-- once the dispatcher has returned, a failure of the source is on record (unless another error came first) -/
+  srcI : s.disp = D.exited → c.srcFails = true → s.gerr ≠ none
   /-- `m.err` is assigned after every goroutine of the group has returned, and holds the group's error -/
   closer : s.stored = true → s.disp = D.exited ∧ allExited s ∧ s.merr = s.gerr
   /-- a consumer can only see a closed `out[i]` after `m.err` has been assigned -/
@@ -271,6 +274,7 @@ theorem inv_init (c : Cfg) : Inv c (init c) where
   dispc := by simp [init]
   dispF := by simp [init]
   gerrI := by simp [init]
+  srcI := by simp [init]
   closer := by simp [init]
   closed := by simp [init]
   finI := by simp [init]
@@ -288,6 +292,7 @@ theorem inv_disp {c : Cfg} {s s' : St} (I : Inv c s) (hfin : s.fin = none)
     refine { len := by simp [I.len], lanes := ?_, wle := by simp only; omega, rle := by have := I.rle; simp only; omega,
              out := I.out, okout := I.okout, dispc := I.dispc,
              dispF := (by intro h; exact absurd hd h), gerrI := I.gerrI,
+             srcI := (by intro h; simp only at h; rw [hd] at h; cases h),
              closer := ?_, closed := I.closed, finI := fun r e => (hfin' r e).elim }
     · show ∀ (j : Nat) (l : Lane), (s.lanes.set (s.write % c.n) { l0 with inq := some s.write })[j]? = some l →
         LaneOK c s.read (s.write + 1) s.gerr s.inClosed j l
@@ -324,7 +329,7 @@ theorem inv_disp {c : Cfg} {s s' : St} (I : Inv c s) (hfin : s.fin = none)
     exact { len := I.len, lanes := I.lanes, wle := I.wle, rle := I.rle, out := I.out, okout := I.okout,
             dispc := by simp [notclosed],
             dispF := (by intro _ hg'; rw [hg'] at hg; cases hg),
-            gerrI := I.gerrI,
+            gerrI := I.gerrI, srcI := (by intro h; cases h),
             closer := (by intro ho; have := (I.closer ho).1; rw [hd] at this; cases this), closed := I.closed,
             finI := fun r e => (hfin' r e).elim }
   · -- the input is exhausted
@@ -335,29 +340,53 @@ theorem inv_disp {c : Cfg} {s s' : St} (I : Inv c s) (hfin : s.fin = none)
     exact { len := I.len, lanes := I.lanes, wle := I.wle, rle := I.rle, out := I.out, okout := I.okout,
             dispc := by simp [notclosed],
             dispF := (by intro _ _; have := I.wle; simp only; omega),
-            gerrI := I.gerrI,
+            gerrI := I.gerrI, srcI := (by intro h; cases h),
             closer := (by intro ho; have := (I.closer ho).1; rw [hd] at this; cases this), closed := I.closed,
             finI := fun r e => (hfin' r e).elim }
-  · -- the dispatcher closes every in[i] and returns
-    exact { len := I.len, lanes := fun j l hl => (I.lanes j l hl).in_closed, wle := I.wle, rle := I.rle,
-            out := I.out, okout := I.okout, dispc := by simp,
-            dispF := (by intro _ hg; exact I.dispF (by rw [hd]; simp) hg),
-            gerrI := I.gerrI,
-            closer := (by intro ho; have := (I.closer ho).1; rw [hd] at this; cases this), closed := I.closed,
-            finI := fun r e => (hfin' r e).elim }
+  · -- the dispatcher closes every in[i] and returns its error (the source's, unless it was cancelled)
+    have hcases : (if s.gerr.isSome then s.gerr else if c.srcFails then some c.N else none) = s.gerr ∨
+        (s.gerr = none ∧ c.srcFails = true ∧
+          (if s.gerr.isSome then s.gerr else if c.srcFails then some c.N else none) = some c.N) := by
+      cases hg : s.gerr with
+      | some e => left; simp
+      | none =>
+        cases hs : c.srcFails with
+        | true => right; simp
+        | false => left; simp
+    rcases hcases with hge | ⟨hgn, hsf, hge⟩
+    · exact { len := I.len, lanes := by simp only; rw [hge]; exact fun j l hl => (I.lanes j l hl).in_closed,
+              wle := I.wle, rle := I.rle, out := I.out, okout := I.okout, dispc := by simp,
+              dispF := (by intro _ hg; simp only at hg; rw [hge] at hg; exact I.dispF (by rw [hd]; simp) hg),
+              gerrI := (by simp only; rw [hge]; exact I.gerrI),
+              srcI := (by
+                intro _ hsf hg; simp only at hg; rw [hge] at hg
+                -- the loop was not left through the Done arm (nothing is cancelled), so the source's error is
+                -- what the dispatcher returns: the `if` above cannot have kept `none`
+                have : (if s.gerr.isSome then s.gerr else if c.srcFails then some c.N else none) = some c.N := by
+                  simp [hg, hsf]
+                rw [hge, hg] at this; cases this),
+              closer := (by intro ho; have := (I.closer ho).1; rw [hd] at this; cases this), closed := I.closed,
+              finI := fun r e => (hfin' r e).elim }
+    · exact { len := I.len, lanes := by simp only; rw [hge]; exact fun j l hl => ((I.lanes j l hl).in_closed).gerr_set c.N,
+              wle := I.wle, rle := I.rle, out := I.out, okout := I.okout, dispc := by simp,
+              dispF := (by intro _ hg; simp only at hg; rw [hge] at hg; cases hg),
+              gerrI := (by simp only; rw [hge]; intro e he; cases he; exact Or.inr ⟨hsf, rfl⟩),
+              srcI := (by intro _ _ hg; simp only at hg; rw [hge] at hg; cases hg),
+              closer := (by intro ho; have := (I.closer ho).1; rw [hd] at this; cases this), closed := I.closed,
+              finI := fun r e => (hfin' r e).elim }
 
 theorem inv_store {c : Cfg} {s : St} (I : Inv c s) (hfin : s.fin = none)
     (hd : s.disp = D.exited) (ha : allExited s) :
     Inv c { s with merr := s.gerr, stored := true } :=
   { len := I.len, lanes := I.lanes, wle := I.wle, rle := I.rle, out := I.out, okout := I.okout, dispc := I.dispc,
-    dispF := I.dispF, gerrI := I.gerrI, closer := fun _ => ⟨hd, ha, rfl⟩,
+    dispF := I.dispF, gerrI := I.gerrI, srcI := I.srcI, closer := fun _ => ⟨hd, ha, rfl⟩,
     closed := fun _ => rfl,
     finI := by intro r e; rw [hfin] at e; cases e }
 
 theorem inv_close {c : Cfg} {s : St} (I : Inv c s) (hfin : s.fin = none) (hs : s.stored = true) :
     Inv c { s with outClosed := true } :=
   { len := I.len, lanes := I.lanes, wle := I.wle, rle := I.rle, out := I.out, okout := I.okout, dispc := I.dispc,
-    dispF := I.dispF, gerrI := I.gerrI, closer := I.closer, closed := fun _ => hs,
+    dispF := I.dispF, gerrI := I.gerrI, srcI := I.srcI, closer := I.closer, closed := fun _ => hs,
     finI := by intro r e; rw [hfin] at e; cases e }
 
 theorem inv_consumer {c : Cfg} {s s' : St} (I : Inv c s) (hfin : s.fin = none)
@@ -375,7 +404,7 @@ theorem inv_consumer {c : Cfg} {s s' : St} (I : Inv c s) (hfin : s.fin = none)
     have hB := L0.B; rw [hp, List.pairwise_cons] at hB
     refine { len := by simp [I.len], lanes := ?_, wle := I.wle, rle := by simp only; omega,
              out := by simp only; rw [I.out, List.range_succ],
-             okout := ?_, dispc := I.dispc, dispF := I.dispF, gerrI := I.gerrI,
+             okout := ?_, dispc := I.dispc, dispF := I.dispF, gerrI := I.gerrI, srcI := I.srcI,
              closer := ?_, closed := I.closed, finI := fun r e => (hfin' r e).elim }
     · show ∀ (j : Nat) (l : Lane), (s.lanes.set (s.read % c.n) { l0 with outq := none })[j]? = some l →
         LaneOK c (s.read + 1) s.write s.gerr s.inClosed j l
@@ -414,7 +443,7 @@ theorem inv_consumer {c : Cfg} {s s' : St} (I : Inv c s) (hfin : s.fin = none)
       · exact h2 l hl
   · -- out[read % n] is closed and empty: Next() returns (false, m.err)
     exact { len := I.len, lanes := I.lanes, wle := I.wle, rle := I.rle, out := I.out, okout := I.okout,
-            dispc := I.dispc, dispF := I.dispF, gerrI := I.gerrI, closer := I.closer, closed := I.closed,
+            dispc := I.dispc, dispF := I.dispF, gerrI := I.gerrI, srcI := I.srcI, closer := I.closer, closed := I.closed,
             finI := by
               intro r e; simp only [Option.some.injEq] at e
               refine ⟨by rw [← e]; exact (I.closer (I.closed ho)).2.2, ho, ?_⟩
@@ -429,6 +458,7 @@ theorem inv_setLane {c : Cfg} {s : St} {j : Nat} {l l' : Lane} (I : Inv c s) (hf
       show ∀ (j' : Nat) (l'' : Lane), (s.lanes.set j l')[j']? = some l'' → LaneOK c s.read s.write s.gerr s.inClosed j' l''
       exact lanes_set hL (fun j' l'' _ h => I.lanes j' l'' h)
     wle := I.wle, rle := I.rle, out := I.out, okout := I.okout, dispc := I.dispc, dispF := I.dispF, gerrI := I.gerrI
+    srcI := I.srcI
     closer := fun ho => (allExited_set hl hw (I.closer ho).2.1).elim
     closed := I.closed
     finI := by intro r e; simp only [setLane] at e; rw [hfin] at e; cases e }
@@ -502,7 +532,8 @@ theorem inv_worker {c : Cfg} {s s' : St} {j : Nat} {l : Lane} (hn : 0 < c.n) (I 
     have hmono : ∀ (j' : Nat) (l'' : Lane), LaneOK c s.read s.write s.gerr s.inClosed j' l'' →
         LaneOK c s.read s.write (some e') s.inClosed j' l'' := fun _ _ h => h.gerr_set e'
     refine { len := by simp [I.len], lanes := ?_, wle := I.wle, rle := I.rle, out := I.out, okout := I.okout,
-             dispc := I.dispc, dispF := ?_, gerrI := ?_, closer := ?_, closed := I.closed, finI := ?_ }
+             dispc := I.dispc, dispF := ?_, gerrI := ?_, srcI := (by intro _ _ hg; simp only at hg; rw [hge] at hg; cases hg),
+             closer := ?_, closed := I.closed, finI := ?_ }
     · show ∀ (j' : Nat) (l'' : Lane), (s.lanes.set j { l with wk := Wk.exited })[j']? = some l'' →
         LaneOK c s.read s.write (if s.gerr.isSome then s.gerr else some k) s.inClosed j' l''
       rw [hge]
@@ -519,7 +550,7 @@ theorem inv_worker {c : Cfg} {s s' : St} {j : Nat} {l : Lane} (hn : 0 < c.n) (I 
       cases hgg : s.gerr with
       | none =>
         rw [hgg] at he; simp at he; subst he
-        exact ⟨L.H3 k hw, by have := (L.A k hkp).2.2; have := I.wle; omega⟩
+        exact Or.inl ⟨L.H3 k hw, by have := (L.A k hkp).2.2; have := I.wle; omega⟩
       | some e0 =>
         rw [hgg] at he; simp at he; subst he
         exact I.gerrI _ hgg
